@@ -218,7 +218,7 @@ ServerHandle ==
                          M    |-> IF Serves(r, flt) THEN M ELSE srv.M,
                          nb1  |-> srv.nb1 + (IF r.b1n >= 0 THEN 1 ELSE 0),
                          nb2  |-> srv.nb2 + (IF Serves(r, flt) THEN 1 ELSE 0),
-                         style |-> style]
+                         style |-> IF final THEN "" ELSE style]      \* (irrelevant once the body is complete)
               /\ msg' = m
               /\ Step(asm \o (IF final /\ flt = "b1cont" THEN << >> ELSE rep) \o out)
               /\ act' = [NoAct EXCEPT !.a = "srv", !.st = st, !.a1 = a1, !.a2 = a2, !.flt = flt, !.fate = fate, !.M1 = M1, !.M2 = M2,
